@@ -388,3 +388,145 @@ fn visit_set_contract() {
     assert!(p.tail_call_eligible == s.tail && p.stack_offset == s.so && p.escape_analysis == s.escape && p.defining_context_depth == s.ctx_depth);
     assert!(p.defining_context == s.ctx || p.defining_context.is_none());
 }
+
+// ------------------------------------------------------------------ visit_atom: what a variable read refers to, and last use
+fn the_atom(e: &ExprKind) -> &Atom {
+    match e {
+        ExprKind::Atom(a) => a,
+        _ => panic!("not an atom"),
+    }
+}
+
+fn sym_u16() -> u16 {
+    let v: u16 = kani::any();
+    kani::assume(v < 1000);
+    v
+}
+
+#[kani::proof]
+#[kani::unwind(6)]
+fn visit_atom_local_contract() {
+    const X: u32 = 7;
+    let e = atom(50, X);
+    let depth: usize = kani::any();
+    kani::assume(depth >= 2 && depth <= 3);
+    let mut a = Analysis::with_depth(depth);
+    let slot = sym_u16();
+    let uses: usize = kani::any();
+    kani::assume(uses < 100);
+    let (captured, mutated): (bool, bool) = (kani::any(), kani::any());
+    let (ho, rho) = (sym_u16(), sym_u16());
+    let mut b = ScopeInfo::new_local(SyntaxObjectId(10), slot as usize, depth as u16);
+    b.usage_count = uses;
+    b.captured = captured;
+    b.mutated = mutated;
+    b.heap_offset = Some(ho);
+    b.read_heap_offset = Some(rho);
+    b.last_used = Some(SyntaxObjectId(33));
+    a.scope.define(InternedString(X), b);
+    let mut p = AnalysisPass::ghost_new(&mut a);
+    let s = sym_state(&mut p);
+    p.visit_atom(the_atom(&e));
+    restored(&p, &s);
+    assert!(p.defining_context == s.ctx && p.log.len() == 0);
+    assert!(p.vars_used.len() == 1 && p.vars_used[0] == InternedString(X));
+    let b = p.info.scope.get(&InternedString(X)).unwrap();
+    assert!(b.usage_count == uses + 1);
+    assert!(b.last_used == Some(SyntaxObjectId(50)), "a read must become the variable's last use");
+    assert!(b.stack_offset == Some(slot) && b.captured == captured && b.mutated == mutated);
+    let i = p.info.info.get(&SyntaxObjectId(50)).unwrap();
+    assert!(i.refers_to == Some(SyntaxObjectId(10)), "the read refers to another binding");
+    assert!(i.stack_offset == Some(slot as u32), "the read is compiled against another stack slot");
+    assert!(i.depth == depth as u32 && i.usage_count == 1);
+    if captured && mutated {
+        assert!(i.kind == IdentifierStatus::HeapAllocated && i.heap_offset == Some(ho as u32) && i.read_heap_offset == Some(rho as u32));
+    } else {
+        assert!(i.kind == IdentifierStatus::Local);
+    }
+}
+
+#[kani::proof]
+#[kani::unwind(6)]
+fn visit_atom_captured_contract() {
+    const X: u32 = 7;
+    let e = atom(50, X);
+    // the binding lives in an enclosing function (depth 2), the read happens two functions further in (depth 4)
+    let mut a = Analysis::with_depth(2);
+    let slot = sym_u16();
+    let mut b = ScopeInfo::new_local(SyntaxObjectId(10), slot as usize, 2);
+    b.last_used = Some(SyntaxObjectId(33));
+    a.scope.define(InternedString(X), b);
+    a.scope.push_layer();
+    a.scope.push_layer();
+    let mut p = AnalysisPass::ghost_new(&mut a);
+    // the capture record of the current lambda
+    let from_enclosing: bool = kani::any();
+    let mutated: bool = kani::any();
+    let uses: usize = kani::any();
+    kani::assume(uses < 100);
+    let (co, rco) = (sym_u16(), sym_u16());
+    let mut c = ScopeInfo::new(SyntaxObjectId(10));
+    c.captured_from_enclosing = from_enclosing;
+    c.mutated = mutated;
+    c.usage_count = uses;
+    c.capture_offset = Some(co);
+    c.read_capture_offset = Some(rco);
+    c.last_used = Some(SyntaxObjectId(34));
+    p.captures.define(InternedString(X), c);
+    let s = sym_state(&mut p);
+    p.visit_atom(the_atom(&e));
+    restored(&p, &s);
+    assert!(p.defining_context == s.ctx && p.log.len() == 0);
+    let c = p.captures.get(&InternedString(X)).unwrap();
+    assert!(c.captured && c.usage_count == uses + 1);
+    assert!(c.last_used == Some(SyntaxObjectId(50)), "a read through a capture must become the capture's last use");
+    let b = p.info.scope.get(&InternedString(X)).unwrap();
+    assert!(b.captured, "the captured binding is not marked captured");
+    assert!(b.last_used == Some(SyntaxObjectId(50)),
+            "a read through a capture must also become the last use of the binding in scope - otherwise an earlier read is compiled as a move and the closure captures #<void>");
+    let i = p.info.info.get(&SyntaxObjectId(50)).unwrap();
+    assert!(i.refers_to == Some(SyntaxObjectId(10)) && i.usage_count == 1 && i.depth == 4);
+    assert!(i.kind == if mutated { IdentifierStatus::HeapAllocated } else { IdentifierStatus::Captured });
+    assert!(i.captured_from_enclosing == from_enclosing);
+    assert!(i.read_capture_offset == Some(rco as u32) && i.capture_index == Some(co as u32));
+}
+
+#[kani::proof]
+#[kani::unwind(6)]
+fn visit_atom_global_free_contract() {
+    // an ordinary name or one the prelude exports
+    let name: u32 = if kani::any() { 5 } else { 1_000_005 };
+    let e = atom(50, name);
+    let which: u8 = kani::any();
+    kani::assume(which < 3);
+    let mut a = Analysis::with_depth(1);
+    if which == 0 {
+        let mut g = ScopeInfo::new_top_level(SyntaxObjectId(10));
+        g.usage_count = 4;
+        a.scope.define(InternedString(name), g);
+        a.info.insert(SyntaxObjectId(10), SemanticInformation::new(IdentifierStatus::Global, 1, Span { start: 0, end: 1 }).with_usage_count(4));
+    }
+    a.scope.push_layer();
+    let mut p = AnalysisPass::ghost_new(&mut a);
+    let s = sym_state(&mut p);
+    let lit = ExprKind::Atom(Atom { syn: RawSyntaxObject { ty: TokenType::Other, span: Span { start: 50, end: 51 }, syntax_object_id: SyntaxObjectId(50) } });
+    if which == 2 {
+        p.visit_atom(the_atom(&lit));
+        assert!(p.info.info.get(&SyntaxObjectId(50)).is_none() && p.vars_used.len() == 0);
+    } else {
+        p.visit_atom(the_atom(&e));
+        let i = p.info.info.get(&SyntaxObjectId(50)).unwrap();
+        if which == 0 {
+            assert!(i.kind == IdentifierStatus::Global && i.refers_to == Some(SyntaxObjectId(10)) && i.usage_count == 1);
+            assert!(p.info.scope.get(&InternedString(name)).unwrap().usage_count == 5);
+            assert!(p.info.info.get(&SyntaxObjectId(10)).unwrap().usage_count == 5);
+            assert!(i.builtin == (name >= 1_000_000));
+        } else {
+            let builtin = name >= 1_000_000;
+            assert!(i.kind == if builtin { IdentifierStatus::Global } else { IdentifierStatus::Free });
+            assert!(i.builtin == builtin && i.refers_to.is_none());
+        }
+    }
+    restored(&p, &s);
+    assert!(p.defining_context == s.ctx && p.log.len() == 0);
+}
